@@ -135,3 +135,38 @@ Example c07_cw_hypotheses_met :
                     | Ok A => cw_safe_b A | _ => false end)
           [Standard; LeftmostLongest; LeftmostFirst] = true.
 Proof. vm_compute. reflexivity. Qed.
+
+(* ---- restored automata with NO representability hypothesis (Proofs/BuildRanges.v): every built
+   automaton fits the Rust types, so its image deserialises to itself, whatever follows it ---------- *)
+From DV Require Import Proofs.BuildRanges.
+
+Theorem bw_every_restored_automaton_never_ub :
+  forall (V : Type) (SV : serializable V) (dom : V -> Prop), ser_law SV dom ->
+  forall k nfb (pvs : list (list N * V)) (A : bw_automaton V),
+    (forall p v, In (p, v) pvs -> Forall (fun b => b < 256) p) -> (forall p v, In (p, v) pvs -> dom v) ->
+    bw_build_with_values V k nfb pvs = Ok A ->
+  forall r A' r', bw_deserialize V SV (bw_serialize V SV A ++ r) = Ok (A', r') ->
+  forall h : list N, Forall (fun b => b < 256) h ->
+    noub (bw_find_iter V A' h) /\ noub (bw_find_overlapping_iter V A' h)
+    /\ noub (bw_find_overlapping_no_suffix_iter V A' h) /\ noub (bw_leftmost_find_iter V A' h).
+Proof.
+  intros V SV dom L k nfb pvs A Hp Hd HA r A' r' HD h Hh.
+  exact (bw_restored_automaton_never_ub V SV dom L k nfb pvs A Hp HA (bw_build_ranges_lemma V dom k nfb pvs A Hp Hd HA) r A' r' HD h Hh).
+Qed.
+Print Assumptions bw_every_restored_automaton_never_ub.
+
+Theorem cw_every_restored_automaton_never_ub :
+  forall (V : Type) (SV : serializable V) (dom : V -> Prop), ser_law SV dom ->
+  forall k nfb (pvs : list (list N * V)) (A : cw_automaton V),
+    (forall p v, In (p, v) pvs -> Forall (fun c => c < 1114112) p) -> (forall p v, In (p, v) pvs -> dom v) ->
+    cw_build_with_values V k nfb pvs = Ok A ->
+  forall r A' r', cw_deserialize V SV (cw_serialize V SV A ++ r) = Ok (A', r') ->
+  forall cs : list N, Forall scalar cs ->
+    let h := encode_utf8 cs in
+    noub (cw_find_iter V A' h) /\ noub (cw_find_overlapping_iter V A' h)
+    /\ noub (cw_find_overlapping_no_suffix_iter V A' h) /\ noub (cw_leftmost_find_iter V A' h).
+Proof.
+  intros V SV dom L k nfb pvs A Hp Hd HA r A' r' HD cs Hs.
+  exact (cw_restored_automaton_never_ub V SV dom L k nfb pvs A HA (cw_build_ranges_lemma V dom k nfb pvs A Hp Hd HA) r A' r' HD cs Hs).
+Qed.
+Print Assumptions cw_every_restored_automaton_never_ub.
